@@ -37,7 +37,7 @@ PROPS = {
     'C01': P([disc('bloom', 'cuckoo', 'qf')]),
     'C06': P([disc('bloom', 'cms', 'hll', 'cuckoo', 'qf')]),
     'C12': P([disc('cuckoo', 'qf')]),
-    'C19': P([disc('bloom', 'cms', 'hll', 'cuckoo', 'qf', 'res', 'lossy', 'heap')]),
+    'C19': P([disc('bloom', 'cms', 'hll', 'cuckoo', 'qf', 'res', 'lossy', 'heap', 'td')]),
     'C13': P([disc('qf')]),
     'C14': P([disc('cuckoo')]),
 }
